@@ -15,6 +15,12 @@ enum Coll {
 const VALS: [&str; 6] = ["a", "b", "x y", "", "1", "é"];
 
 pub fn gen(r: &mut Rng) -> Value {
+    if r.chance(1, 6) {
+        // nested collections (handles stored as values) and release with / without --recursive
+        let n = 2 + r.below(5);
+        let nodes: Vec<Value> = (0..n).map(|i| json!({"kind": r.pick(&["array", "map", "set"]), "parent": if i == 0 { 0 } else { r.below(i) }})).collect();
+        return json!({"nest": nodes, "recursive": r.chance(2, 3), "root": r.below(n), "flag": r.pick(&["-r", "--recursive"])});
+    }
     let n = 3 + r.below(10);
     let mut ops = vec![];
     for _ in 0..n {
@@ -56,7 +62,73 @@ fn q(s: &str) -> String {
     format!("\"{}\"", s)
 }
 
+fn run_nest(input: &Value) -> Option<Value> {
+    let nodes = input["nest"].as_array()?;
+    let n = nodes.len();
+    let parent: Vec<usize> = nodes.iter().map(|x| x["parent"].as_u64().unwrap_or(0) as usize).collect();
+    let mut script = String::new();
+    for i in (0..n).rev() {
+        let kids: Vec<usize> = (i + 1..n).filter(|&c| parent[c] == i).collect();
+        match nodes[i]["kind"].as_str()? {
+            "array" => {
+                script.push_str(&format!("n{} = array x", i));
+                for c in &kids {
+                    script.push_str(&format!(" ${{n{}}}", c));
+                }
+                script.push('\n');
+            }
+            "set" => {
+                script.push_str(&format!("n{} = set_new x", i));
+                for c in &kids {
+                    script.push_str(&format!(" ${{n{}}}", c));
+                }
+                script.push('\n');
+            }
+            _ => {
+                script.push_str(&format!("n{} = map\nmap_put ${{n{}}} plain x\n", i, i));
+                for c in &kids {
+                    script.push_str(&format!("map_put ${{n{}}} k{} ${{n{}}}\n", i, c, c));
+                }
+            }
+        }
+    }
+    let root = input["root"].as_u64()? as usize;
+    let recursive = input["recursive"].as_bool()?;
+    script.push_str(&format!("out = release {} ${{n{}}}\n", if recursive { input["flag"].as_str()? } else { "" }, root));
+    for i in 0..n {
+        let q = match nodes[i]["kind"].as_str()? { "array" => "is_array", "set" => "is_set", _ => "is_map" };
+        script.push_str(&format!("live{} = {} ${{n{}}}\n", i, q, i));
+    }
+    let mut context = Context::new();
+    duckscriptsdk::load(&mut context.commands).ok()?;
+    let ctx = match runner::run_script(&script, context, None) {
+        Ok(c) => c,
+        Err(e) => return Some(json!({"script": script, "error": e.to_string()})),
+    };
+    if ctx.variables.get("out").map(|x| x.as_str()) != Some("true") {
+        return Some(json!({"script": script, "what": "release of a live handle did not return true", "real": ctx.variables.get("out")}));
+    }
+    for i in 0..n {
+        // i is released iff it is the root or (recursive and) a descendant of the root
+        let mut a = i;
+        let mut under = a == root;
+        while recursive && a != 0 && !under {
+            a = parent[a];
+            under = a == root;
+        }
+        let want = (!under).to_string();
+        let got = ctx.variables.get(&format!("live{}", i)).cloned();
+        if got.as_deref() != Some(want.as_str()) {
+            return Some(json!({"script": script, "what": "liveness after release differs from the reference model (release removes the handle; with the recursive flag also every collection reachable through its values)", "node": i, "model_live": want, "real_live": got}));
+        }
+    }
+    None
+}
+
 pub fn run(input: &Value) -> Option<Value> {
+    if !input["nest"].is_null() {
+        return run_nest(input);
+    }
     let mut context = Context::new();
     duckscriptsdk::load(&mut context.commands).ok()?;
     // slot -> model collection (None = never created or released); handle names live in variables h0..h3
